@@ -272,6 +272,38 @@ where
             }
         }
     }
+    // (3b) rotated-codeword forgery (Reed-Solomon schemes): scaling matrix column c by omega^(s*c) rotates every
+    //      encoded row by s positions, so q's encoded matrix consists of p's columns at shifted positions. A proof
+    //      consistent with q whose columns are authenticated by p's own tree - at the WRONG leaf indices - proves q(z).
+    if S::NAME.starts_with("ligero") && cm.metadata.n_ext_cols.is_power_of_two() && cm.metadata.n_ext_cols >= 4 {
+        use ark_poly::{EvaluationDomain, GeneralEvaluationDomain};
+        let n_ext = cm.metadata.n_ext_cols;
+        let m = cm.metadata.n_cols;
+        if let Some(dom) = GeneralEvaluationDomain::<F>::new(n_ext) {
+            let omega = dom.group_gen();
+            let sft = range(rng, 1, n_ext - 1);
+            let mq: Vec<Vec<F>> = c.st.mat.entries.iter().map(|row| row.iter().enumerate().map(|(cidx, x)| *x * omega.pow([(sft * cidx) as u64])).collect()).collect();
+            // sanity of the construction on the first row
+            let e_p = attempt(|| L::encode(&c.st.mat.entries[0], &w.ck)).ok();
+            let e_q = attempt(|| L::encode(&mq[0], &w.ck)).ok();
+            let rotated = match (&e_p, &e_q) {
+                (Some(ep), Some(eq)) => ep.len() == n_ext && (0..n_ext).all(|j| eq[j] == ep[(j + sft) % n_ext]),
+                _ => false,
+            };
+            if !rotated || m == 0 {
+                ctx.skipped("rotated-codeword-forgery", "encoding is not rotation-covariant for this shape");
+            } else {
+                let vq = row_mul(&mq, &b);
+                let claim = crate::oracle::inner(&vq, &a);
+                let wfq = r.as_ref().map(|r| row_mul(&mq, r));
+                let (_, idx) = transcript::<S, L>(&c, wfq.as_ref(), &vq, false);
+                let shifted: Vec<usize> = idx.iter().map(|j| (j + sft) % n_ext).collect();
+                let (cols, paths) = cols_paths(&c.st, &c.tree, &shifted);
+                let pf = to_proof::<S>(MLinProof { opening: MProofSingle { paths, v: vq, columns: cols }, well_formedness: wfq });
+                judge(ctx, "rotated-codeword-forgery", claim, pf, json!({"shift": sft}));
+            }
+        }
+    }
     // (4) shape faults on top of an altered vector: well-formedness vector absent, columns repeated / shifted, paths swapped
     {
         let mut v = v_honest.clone();
